@@ -94,6 +94,12 @@ StepViol(e, Q2) ==
                     \cup (IF e.a = "WorkerLost" /\ e.args.alloc = a /\ a \in AllAllocs(Q) /\ AllocOf(Q, a).st = "Running" THEN {e.args.w} ELSE {})
         IN AllocOf(Q2, a).connected = ce \ lr /\ AllocOf(Q2, a).ndisc = Cardinality(lr)
    THEN {} ELSE {"C18_ConnectedWorkersExact"}) \cup
+  \* "it finishes normally exactly when the number of DISTINCT workers lost from it reaches the size it was submitted with": a loss
+  \* notification ends a running allocation only if the distinct workers lost so far (history, not the code's own count) make up the target
+  (IF e.a = "WorkerLost" /\ e.args.known /\ e.args.alloc \in AllAllocs(Q) /\ e.args.alloc \in AllAllocs(Q2)
+        /\ AllocOf(Q, e.args.alloc).st = "Running" /\ Rank(AllocOf(Q2, e.args.alloc).st) = 2
+        /\ Cardinality((IF e.args.alloc \in DOMAIN lostRunning THEN lostRunning[e.args.alloc] ELSE {}) \cup {e.args.w}) # AllocOf(Q, e.args.alloc).target
+   THEN {"C18_FinishesOnlyWhenDistinctLostReachSize"} ELSE {}) \cup
   (IF e.a \in {"WorkerConnected", "WorkerLost"} /\ ~e.args.known /\ (Q2 # Q \/ e.ev # <<>>) THEN {"C18_UnknownAllocationIgnored"} ELSE {}) \cup
   (IF e.a = "RemoveQueue" THEN
       (IF e.args.q \in DOMAIN Q THEN
